@@ -74,6 +74,7 @@ package cache
 //@   let quota = r.GetCpu().GetQuota().GetValue()
 //@   let period = int64(r.GetCpu().GetPeriod().GetValue())
 //@   requires 0 <= shares && shares <= 1 << 40 && 0 <= quota && quota <= 1 << 40 && 0 <= period && period <= 1 << 30
+//@   requires kubernetes.GetMemoryCapacity() >= 1 << 20 && kubernetes.GetMemoryCapacity() <= 1 << 53 && kubernetes.tableOK()
 //@   ensures[C20] SharesToMilliCPU(shares) > 0 ==> corev1.ResourceCPU in result.Requests && qmilli(result.Requests[corev1.ResourceCPU]) == SharesToMilliCPU(shares)
 //@   ensures[C20] SharesToMilliCPU(shares) <= 0 ==> !(corev1.ResourceCPU in result.Requests)
 //@   ensures[C20] qosClass == corev1.PodQOSGuaranteed ==> result.Limits[corev1.ResourceCPU] == result.Requests[corev1.ResourceCPU]
